@@ -25,10 +25,13 @@ def classify_gv(chk, pid, mism, lines):
         obs = json.loads(lines[m["line"] - 1])
         devs = line_devs.get(m["line"])
         rp = {"observation": {k: obs.get(k) for k in ("ev", "id", "fmt", "T", "v", "pos", "le")}, "mismatch": m}
-        if devs:
-            prefix = "gv-enc-bytes:dev:" if m["what"] == "gv-enc-bytes" else "gv-rt:dev:"
+        if m["what"] == "gv-enc-bytes" and devs:
             for d in devs:
-                chk.report(prefix + d, {"clause": m["what"], "deviation": d, "type": sig_of(obs["T"])}, rp)
+                chk.report("gv-enc-bytes:dev:" + d, {"clause": m["what"], "deviation": d, "type": sig_of(obs["T"])}, rp)
+        elif m["what"] in ("gv-rt-value", "gv-rt-outcome") and isinstance(m.get("detail"), dict) and m["detail"].get("emptydrop"):
+            # the value contains a container whose members are all empty: the encoder's dropped framing
+            # offsets (named deviation) make the encoding ambiguous, so it cannot decode back
+            chk.report("gv-rt:dev:no_offsets_when_body_empty", {"clause": m["what"], "type": sig_of(obs["T"])}, rp)
         else:
             chk.report("%s:%s" % (m["what"], sig_of(obs.get("T", {}))), {"clause": m["what"], "detail": m.get("detail")}, rp)
 
